@@ -624,6 +624,11 @@ func (c *Channel) removeFromInFlightPQ(msg *Message) {
 		c.inFlightMutex.Unlock()
 		return
 	}
+	if msg.index >= len(c.inFlightPQ) || c.inFlightPQ[msg.index] != msg {
+		// the pqueue was replaced (Empty) since this item was pushed
+		c.inFlightMutex.Unlock()
+		return
+	}
 	verif.Ev("IFHeapRem", "c", vc(c), "id", vid(msg.ID), "idx", msg.index, "n", len(c.inFlightPQ))
 	c.inFlightPQ.Remove(msg.index)
 	c.inFlightMutex.Unlock()
